@@ -1,6 +1,6 @@
 (* Dispatcher of the extracted model binary: one S-expression in, one out. *)
 From Coq Require Import List String.
-From EinxV Require Import Base.Sexp Model.ParseIO Model.LoopIO Model.IrIO Model.OptIO Model.RegistryIO Model.SolveIO Model.LowerIO Model.JoinIO Model.TracerKeyIO.
+From EinxV Require Import Base.Sexp Model.ParseIO Model.LoopIO Model.IrIO Model.OptIO Model.RegistryIO Model.SolveIO Model.LowerIO Model.JoinIO Model.TracerKeyIO Model.NamesIO.
 Import ListNotations.
 Open Scope string_scope.
 
@@ -16,6 +16,7 @@ Definition run (s : sexp) : sexp :=
     else if String.prefix "lower_" cmd then run_lower cmd arg
     else if String.prefix "join_" cmd then run_join cmd arg
     else if String.prefix "tracerkey_" cmd then run_tracerkey cmd arg
+    else if String.prefix "names_" cmd then run_names cmd arg
     else bad "unknown command"
   | _ => bad "expected (cmd arg)"
   end.
